@@ -70,6 +70,15 @@ m('C20', B, '\t\tdelete(gb.refreshingScRefs, sc)\n', '\t\tdelete(gb.refreshingSc
 m('C17', B, '\tif cp.GetMinSize() == 0 {\n\t\tcp.MinSize = defaultMinSize\n\t}\n\tif cp.GetMaxSize() == 0 {', '\tif cp.GetMinSize() == 0 {\n\t\tcp.MinSize = defaultMinSize\n\t} else if cp.GetMaxSize() == 0 {', 'maxSize defaulted only when minSize was set (alternatives instead of independent tests)')
 m('C18', PR, '\tif backoff > max {\n\t\tbackoff = max\n\t}', '\tif backoff > max && retries == 0 {\n\t\tbackoff = max\n\t}', 'clamp applied only when the retries ran out')
 
+# ---------------- rules that no seeded change and no earlier mutant had fired
+m('C07', P, '\t\tif window > math.MaxInt64/2 {\n', '\t\tif window > math.MaxInt64/2 && cnt < 8 {\n', 'the doubling of the window is guarded against overflow only for small refresh counts')
+m('C07', P, '\t\twindow *= 2\n', '\t\twindow = time.Duration(int32(window) * 2)\n', 'the window is doubled in 32 bits')
+m('C09', B, '\t\t// Inform of the state change.\n\t\tclose(scRef.stateSignal)\n\t\tscRef.stateSignal = make(chan struct{})\n', '\t\t// Inform of the state change.\n\t\tclose(scRef.stateSignal)\n', 'the state signal is closed but not re-created')
+m('C09', B, '\t\t// Inform of the state change.\n\t\tclose(scRef.stateSignal)\n\t\tscRef.stateSignal = make(chan struct{})\n', '\t\tif s == connectivity.Ready {\n\t\t\tclose(scRef.stateSignal)\n\t\t\tscRef.stateSignal = make(chan struct{})\n\t\t}\n', 'waiters are woken only by READY reports')
+m('C16', G, '\t\t\tif err := me.SetEndpoints(meo.Endpoints); err != nil {\n\t\t\t\treturn err\n\t\t\t}\n', '\t\t\tme.SetEndpoints(meo.Endpoints)\n', 'the error of SetEndpoints is dropped')
+m('C06', B, '\t\tsigChan := scRef.stateSignal\n\t\tgb.mu.RUnlock()\n\t\tselect {\n\t\tcase <-ctx.Done():\n\t\t\treturn scRef\n\t\tcase <-ticker.C:\n\t\tcase <-sigChan:\n\t\t}\n\t\tgb.mu.RLock()\n', '\t\tsigChan := scRef.stateSignal\n\t\tselect {\n\t\tcase <-ctx.Done():\n\t\t\tgb.mu.RUnlock()\n\t\t\treturn scRef\n\t\tcase <-ticker.C:\n\t\tcase <-sigChan:\n\t\t}\n', 'the round-robin waiter blocks with the balancer lock read-held')
+m('C06', B, '\t\tselect {\n\t\tcase <-ctx.Done():\n\t\t\treturn scRef\n\t\tcase <-ticker.C:\n\t\tcase <-sigChan:\n\t\t}\n', '\t\tselect {\n\t\tcase <-ctx.Done():\n\t\t\treturn scRef\n\t\tcase <-sigChan:\n\t\tdefault:\n\t\t}\n', 'the round-robin waiter spins (select with default)')
+
 # ---------------- C05
 m('C05', P, '\t\t\tif len(a) > 0 {\n\t\t\t\tboundKey = a[0]\n\t\t\t}', '\t\t\tboundKey = a[0]', 'index of a possibly empty key list (F6)')
 m('C05', P, '\t\t\tif !hasGCPCtx {\n\t\t\t\t// No reply message to get affinity keys from (interceptor not installed).\n\t\t\t\treturn\n\t\t\t}\n', '', 'nil interceptor context dereferenced in the callback (F7)')
